@@ -1051,6 +1051,24 @@ def run_step(sess, cl, peer, step, prop):
             start = chain["base_prev"]
         else:
             start = chain["blocks"][step["start"] % len(chain["blocks"])]["hash"]
+        if step.get("num_hashes", 1) != 1:
+            # the count field is a constructor argument; the message holds one locator hash: whatever count the caller passes, the
+            # client either refuses or emits a payload in the protocol's layout (count == number of hashes that follow)
+            tr.fault("getheaders_count_argument")
+            try:
+                raw_ = GetHeadersMessage(version=70015, num_hashes=step["num_hashes"], start_block=start).serialize()
+            except Exception:
+                raw_ = None
+                tr.probe("getheaders_count_refused")
+            tr.oracle("P2_getheaders_count")
+            if raw_ is not None:
+                try:
+                    d_ = rp.dec_getheaders(raw_)
+                    okc = d_["locators"] == [start] and d_["stop"] == bytes(32)
+                except Exception:
+                    okc = False
+                if not okc:
+                    fail("C19", "P2", "getheaders_count_layout", f"GetHeadersMessage(num_hashes={step['num_hashes']}) serialises to {len(raw_)} bytes that are not the getheaders layout (count field does not match the hashes that follow)")
         gm = GetHeadersMessage(version=step.get("version", 70015), start_block=start, end_block=bytes.fromhex(step["stop"]) if step.get("stop") else None)
         node.send(gm)
         d = rp.dec_getheaders(sess.clog[-1][2])
@@ -1492,6 +1510,8 @@ def gen_step(ch, op, chain_cfg, tier, enabled, p_fault):
             s["version"] = ch.choice([0, 70015, 2**32 - 1, ch.getrandbits(32)])
         if ch.chance(0.3):
             s["stop"] = ch.bytes(32).hex()
+        if ch.chance(0.15):
+            s["num_hashes"] = ch.choice([0, 2, 3, 0xFD, 0x10000])
     elif op in ("filtered", "block"):
         s["trigger"] = "getdata"
         k = ch.randrange(1, 3)
